@@ -86,6 +86,13 @@ func attrCases(c *Ctx, n int) {
 		one([]byte("{#i "+a+" .c}"), 0)
 		one([]byte("{"+a+","+a+"}"), 0)
 	}
+	// every byte at the start of, inside and after a name, an id, a class, a bare value
+	for b := 0; b < 256; b++ {
+		ch := string([]byte{byte(b)})
+		for _, t := range []string{"{a" + ch + "c=1}", "{" + ch + "a=1}", "{data-x" + ch + "onclick=v}", "{#i" + ch + "j}", "{.c" + ch + "d}", "{k=v" + ch + "w}", "{k=\"v" + ch + "w\"}", "{k=[1" + ch + "2]}", "{k" + ch + "}", "{k=1" + ch + "}"} {
+			one([]byte(t), 0)
+		}
+	}
 	for i := 0; i < n; i++ {
 		var sb strings.Builder
 		pre := c.R.PickS([]string{"", "", " ", "x ", "# h "})
